@@ -78,6 +78,25 @@ def check_call(case):
     common.expect_raises(lambda: d(*bad), (TypeError,),
                          "C19:wrong-input-length-accepted",
                          "{} called on {} values".format(d, len(bad)))
+    # the functions themselves (the PRO the diagrams are interpreted in): a
+    # composite that is composed further still computes what it computed
+    from discopy.cartesian import Function
+    v = inputs[0] if inputs else "v"
+    f = Function(1, 2, xspec.term_function("p", 2))
+    g = Function(2, 1, xspec.term_function("q", 1))
+    h = Function(1, 1, xspec.term_function("r", 1))
+    prefix = f >> g
+    before = prefix(v)
+    whole = prefix >> h >> f
+    twice = prefix >> prefix
+    expected = g(*f(v))
+    require(before == expected and prefix(v) == expected,
+            "C19:function-composite-changed-by-later-composition",
+            lambda: "(f >> g)({!r}) = {!r} at first, {!r} after composing it "
+            "further, expected {!r}".format(v, before, prefix(v), expected))
+    require(whole(v) == f(h(expected)) and twice(v) == g(*f(expected)),
+            "C19:function-composition", lambda: "{!r} / {!r}".format(
+                whole(v), twice(v)))
     arities = [b["n"] for b, _ in spec["layers"]]
     return dict(nt=len(arities) >= 3 and any(0 in a for a in arities)
                 and any(max(a) >= 2 for a in arities),
